@@ -663,7 +663,7 @@ func TestPropStreamReconnectHandlers(t *testing.T) {
 		setInconclusive("%v", err)
 		return
 	}
-	vstat.Checks(2500, 60000)
+	checks(2500, 60000)
 	rapid.Check(t, func(rt *rapid.T) {
 		skipIfInconclusive(rt)
 		c := genRcCase().Draw(rt, "case")
@@ -918,7 +918,7 @@ func TestPropStreamReconnectLoopback(t *testing.T) {
 		setInconclusive("%v", err)
 		return
 	}
-	vstat.Checks(250, 8000)
+	checks(250, 8000)
 	rapid.Check(t, func(rt *rapid.T) {
 		skipIfInconclusive(rt)
 		c := genRcCase().Draw(rt, "case")
